@@ -37,6 +37,7 @@ def parseAct (w : String) : Option Act :=
   | 'y' => some (.yield num)
   | 'n' => some .yieldNull
   | 'r' => some .awaitReady
+  | 'q' => some .pause
   | 'p' => some (.await (if num < 8 then num else 0))
   | 'f' => some (.await (if num < 8 then num else 0))
   | 'g' => some .guard
